@@ -111,6 +111,13 @@ func (c *Checker) storeInCache(hashesToRequest, respHashes []hostnameHash) {
 			var pref prefix
 			copy(pref[:], hash[:])
 
+			if _, ok := hashToStore[pref]; ok {
+				// The upstream has just returned hashes for this prefix, so
+				// don't cache it as empty even if the cache hasn't kept them,
+				// for example because of its size limit.
+				continue
+			}
+
 			c.setCache(pref, nil)
 		}
 	}
